@@ -13,5 +13,10 @@ for d in cmd/*/; do
   echo "pre-building $e ${race[*]:-}"
   go build -tags verif "${race[@]}" -o /verif/.build/setup/$e ./cmd/$e || rc=1
 done
+# C19 runs these two engines race-built as workloads
+for e in cnisim polsim; do
+  echo "pre-building $e -race"
+  go build -tags verif -race -o /verif/.build/setup/$e.race ./cmd/$e || rc=1
+done
 rm -rf /verif/.build/setup
 exit $rc
